@@ -116,14 +116,17 @@ PROPS = {
     "C10": {
         "props_module": "HdModel.Props.C10",
         "class_prefix": ["C10/"],
-        "theorems": ["Hd.Eyeballs.C10_no_candidates"],
+        "theorems": ["Hd.Eyeballs.C10_first_success", "Hd.Eyeballs.C10_err_only_when_all_failed", "Hd.Eyeballs.C10_timeout",
+                     "Hd.Eyeballs.C10_succeeds_if_possible", "Hd.Eyeballs.C10_no_candidates",
+                     "Hd.Eyeballs.C10_no_progress_only_if_empty", "Hd.Eyeballs.loop_post2", "Hd.Eyeballs.loop_inv1"],
         "streams": EB_STREAMS, "rule": EB_RULE, "assumes": EB_ASSUMES,
     },
     "C11": {
         "props_module": "HdModel.Props.C11",
         "class_prefix": ["C11/"],
         "theorems": ["Hd.Eyeballs.C11_order_once", "Hd.Eyeballs.C11_deadline", "Hd.Eyeballs.C11_starts_before_finish",
-                     "Hd.Eyeballs.loop_inv1"],
+                     "Hd.Eyeballs.C11_pacing", "Hd.Eyeballs.C11_first_at_zero", "Hd.Eyeballs.C11_failure_triggers_start",
+                     "Hd.Eyeballs.C11_initial_bound", "Hd.Eyeballs.loop_inv1", "Hd.Eyeballs.loop_inv3"],
         "streams": EB_STREAMS, "rule": EB_RULE, "assumes": EB_ASSUMES,
     },
     "C08": {
